@@ -25,3 +25,37 @@ pub fn unhex(s: &str) -> Option<Vec<u8>> {
     }
     Some(out)
 }
+
+/// Redirects file descriptor 1 to /dev/null for its lifetime.
+pub struct StdoutSilencer {
+    saved: i32,
+}
+impl StdoutSilencer {
+    pub fn new() -> Self {
+        use std::io::Write;
+        let _ = std::io::stdout().flush();
+        unsafe {
+            let saved = libc::dup(1);
+            let null = libc::open(c"/dev/null".as_ptr(), libc::O_WRONLY);
+            if saved >= 0 && null >= 0 {
+                libc::dup2(null, 1);
+            }
+            if null >= 0 {
+                libc::close(null);
+            }
+            StdoutSilencer { saved }
+        }
+    }
+}
+impl Drop for StdoutSilencer {
+    fn drop(&mut self) {
+        use std::io::Write;
+        let _ = std::io::stdout().flush();
+        unsafe {
+            if self.saved >= 0 {
+                libc::dup2(self.saved, 1);
+                libc::close(self.saved);
+            }
+        }
+    }
+}
